@@ -53,12 +53,17 @@ WATCHDOG = {"quick": 600, "thorough": 3000}
 NAMES = ["A", "B", "C", "D", "E", "F"]
 
 
+# glibc fills freed blocks with a pattern: a matrix whose buffer was freed behind its back shows
+# different values at once (plain build; the asan build reports the access itself)
+PERTURB = {"MALLOC_PERTURB_": "85"}
+
+
 def plan(tier):
     if tier == "thorough":
-        return [{"variant": "plain", "workers": 12, "cases": 9000, "name": "plain"},
+        return [{"variant": "plain", "workers": 12, "cases": 12000, "name": "plain", "env": PERTURB},
                 {"variant": "asan", "workers": 4, "cases": 1500, "name": "asan"}]
-    return [{"variant": "plain", "workers": 7, "cases": 420, "name": "plain"},
-            {"variant": "asan", "workers": 1, "cases": 120, "name": "asan"}]
+    return [{"variant": "plain", "workers": 7, "cases": 1000, "name": "plain", "env": PERTURB},
+            {"variant": "asan", "workers": 1, "cases": 150, "name": "asan"}]
 
 
 def run(ctx):
